@@ -5,7 +5,7 @@
 # seeded/<id>/meta.json "also_checked_by". Results: /verif/.build/seed-regression.txt
 cd "$(dirname "$0")/.." || exit 2
 SEEDS="$*"; [ -z "$SEEDS" ] && SEEDS=$(ls seeded)
-OUT=.build/seed-regression.txt; mkdir -p .build; : > $OUT
+OUT=${SEEDREG_OUT:-.build/seed-regression.txt}; mkdir -p .build; : > $OUT
 fail=0
 for s in $SEEDS; do
   prop=$(python3 -c "import json;print(json.load(open('seeded/$s/meta.json'))['property'])")
